@@ -117,6 +117,9 @@ func runLifeProfile(l *Life, profile string, n, steps int) {
 		case "buildstress":
 			l.BuildStress(6, steps, fmt.Sprintf("%s-%d", profile, i))
 			continue
+		case "engfail":
+			l.EngineFailures([]string{"flat", "ivf"}[i%2], fmt.Sprintf("%s-%d", profile, i))
+			continue
 		case "vec":
 			p = VecProfile()
 		case "syn":
